@@ -1,18 +1,21 @@
 import Driver.UF
 import Driver.Merge
 import Driver.Schedule
+import Driver.Table
 open Driver
 
 structure St where
   uf : EgglogVerif.UF.Parents := #[]
   mg : MgSt := {}
   sc : ScSt := {}
+  tb : TbSt := {}
 
 def dispatch (s : St) (line : String) : St × String :=
   match (line.trimAscii.toString.splitOn " ").filter (· ≠ "") with
   | "uf" :: rest => let (p, o) := ufStep s.uf rest; ({ s with uf := p }, o)
   | "mg" :: rest => let (p, o) := mgStep s.mg rest; ({ s with mg := p }, o)
   | "sc" :: rest => let (p, o) := scStep s.sc rest; ({ s with sc := p }, o)
+  | "tb" :: rest => let (p, o) := tbStep s.tb rest; ({ s with tb := p }, o)
   | _ => (s, "bad-op")
 
 partial def loop (h : IO.FS.Stream) (out : IO.FS.Stream) (s : St) : IO Unit := do
